@@ -35,7 +35,7 @@ def main():
                 t0 = time.time()
                 r = subprocess.run([os.path.join(V, 'check'), chk, '--tier', tier], env=env,
                                    capture_output=True, text=True, cwd=V)
-                sigs = re.findall(r'sig=(\S+)', r.stdout)
+                sigs = re.findall(r'^  impl=\S+ sig=(\S+)', r.stdout, re.M)
                 nviol = len(re.findall(r'^VIOLATION', r.stdout, re.M))
                 first = ''
                 m = re.search(r'^VIOLATION.*\n.*\n(.*)', r.stdout, re.M)
